@@ -350,6 +350,7 @@ def run_damv(ctx: Ctx) -> None:
                 pass
         if isinstance(s, ast.For):
             break
+    wrong23: list[str] = []
     for s in body:
         nm = _tname(s)
         v = s.value if nm is not None else None
@@ -368,11 +369,17 @@ def run_damv(ctx: Ctx) -> None:
                         ("cell", "J", (iv,)): L}))
                     if equivalent(c, ("lt", H - Q, L)) is None:
                         s23 = nm
+                    else:
+                        wrong23.append(ast.unparse(g.ifs[0]))
                 except Unsupported:
                     pass
     ctx.ob("D3.2", fi, fi.node, s23 is not None,
            f"`{s23}` = {{j in S2 u S3 : l_j > H - q}} (theorem 3)" if s23
-           else "no list holds S23 = {j in S2 u S3 : l_j > H - q}",
+           else (f"the elements of S2 u S3 are filtered by `{wrong23[0]}`, "
+                 "which is not l_j > H - q (theorem 3)" if wrong23 else
+                 "the set S23 = {j in S2 u S3 : l_j > H - q} is not "
+                 "recognised (no single list built from S2 + S3 with that "
+                 "filter)"),
            construct="set S23")
     if s23 is None:
         return
